@@ -3,6 +3,8 @@ package main
 // Calls: builtins, intrinsics (sync/atomic), contracts, inlining, callbacks, external functions.
 
 import (
+	"os"
+	"go/token"
 	"fmt"
 	"go/types"
 	"strings"
@@ -427,6 +429,9 @@ func (vc *FuncVC) applyContract(st *State, con *Contract, name string, fn *ssa.F
 	vc.bindResults(vars, con, fn, sig, res)
 	post := &SpecEnv{g: st.g, st: st, heaps: st.heaps, old: pre, vars: vars, pkg: pkg}
 	for _, en := range con.Ensures {
+		if en.Label == "probe-false" {
+			continue // vacuity probe: checked for the function itself, never assumed by callers
+		}
 		t, err := post.Bool(en.E)
 		if err != nil {
 			vc.errs = append(vc.errs, fmt.Sprintf("%s ensures[%s]: %v", name, en.Label, err))
@@ -787,6 +792,9 @@ func (vc *FuncVC) intrinsic(st *State, name string, fn *ssa.Function, args []Val
 		if vc.step != nil && st.step != nil && st.dry == nil {
 			return vc.atomicStep(st, op, l, pt, args, resT), true
 		}
+		if st.dry != nil {
+			vc.dryStepGhostWrites(st)
+		}
 		switch {
 		case strings.HasPrefix(op, "Load"):
 			return one(st.loadLoc(l))
@@ -907,6 +915,46 @@ type spawnRec struct {
 	name string
 	vars map[string]SV
 	pkg  string
+	ro   []roCell // cells of captured variables that the spawned closure only reads
+}
+
+// roCell: the cell of a variable captured by reference that the closure never assigns (its free variable is only
+// dereferenced for loading): whatever the closure's modifies clause says about the memory the cell lives in, the
+// closure does not write the cell itself, so its content survives the havoc of the closure's effects.
+type roCell struct {
+	addr Val
+	elem types.Type
+}
+
+// readOnlyCaptures returns the captured cells fn provably never writes: every use of the free variable is a load
+// (*fv) or a debug reference; nested closures capturing it again are treated as writers.
+func readOnlyCaptures(fn *ssa.Function, binds []Val) []roCell {
+	var out []roCell
+	for i, fv := range fn.FreeVars {
+		if i >= len(binds) {
+			break
+		}
+		pt, ok := fv.Type().Underlying().(*types.Pointer)
+		if !ok || fv.Referrers() == nil {
+			continue
+		}
+		ro := true
+		for _, u := range *fv.Referrers() {
+			switch x := u.(type) {
+			case *ssa.UnOp:
+				if x.Op != token.MUL {
+					ro = false
+				}
+			case *ssa.DebugRef:
+			default:
+				ro = false
+			}
+		}
+		if ro {
+			out = append(out, roCell{addr: binds[i], elem: pt.Elem()})
+		}
+	}
+	return out
 }
 
 func (vc *FuncVC) havocEffects(st *State, sp spawnRec) {
@@ -926,7 +974,19 @@ func (vc *FuncVC) havocEffects(st *State, sp spawnRec) {
 	for _, m := range sp.con.Modifies {
 		vc.havocItem(st, env, m, sp.name)
 	}
+	// read-only captured cells keep their content
+	if len(sp.ro) > 0 {
+		before := &State{g: st.g, heaps: pre, written: map[string]bool{}, quiet: true}
+		after := &State{g: st.g, heaps: st.heaps, written: map[string]bool{}, quiet: true}
+		for _, c := range sp.ro {
+			a, b := before.derefLoad(c.addr, c.elem), after.derefLoad(c.addr, c.elem)
+			if a.K == b.K && len(a.Fs) == len(b.Fs) {
+				st.assume(eqVals(a, b))
+			}
+		}
+	}
 }
+
 
 // goStmt: "go f(args)". The callee's precondition is an obligation of the spawning function; its effects are
 // havocked here and again at WaitGroup.Wait (fork-join abstraction).
@@ -977,7 +1037,8 @@ func (vc *FuncVC) goStmt(st *State, g *ssa.Go) {
 		}
 		st.oblige(fmt.Sprintf("go[%s].requires[%s]", name, r.Label), t, r.Src)
 	}
-	sp := spawnRec{con: con, name: name, vars: vars, pkg: pkg}
+	sp := spawnRec{con: con, name: name, vars: vars, pkg: pkg, ro: readOnlyCaptures(fn, binds)}
+	sp.ro = append(sp.ro, vc.privateCells(st, c.Value, binds)...)
 	st.spawned = append(st.spawned, sp)
 	vc.havocEffects(st, sp)
 }
@@ -1147,4 +1208,166 @@ func (vc *FuncVC) staticClosure(st *State, v ssa.Value) (*ssa.Function, []Val, b
 		}
 	}
 	return fn, binds, true
+}
+
+// dryStepGhostWrites: in the dry pass (loop write sets) of a step-mode function the atomic steps are executed as
+// plain memory operations, so the ghost updates attached to them ("atomic k ghost", "at-call ... :=") would be
+// missing from the write sets of the enclosing loops. Every ghost location such a clause of the governing
+// contracts can assign is recorded as written (an over-approximation: it only costs precision at loop heads).
+func (vc *FuncVC) dryStepGhostWrites(st *State) {
+	var cons []*Contract
+	if vc.con != nil && vc.con.Mode == "step" {
+		cons = append(cons, vc.con)
+	}
+	if st.fr != nil && st.fr.caller != nil {
+		if c := vc.g.DB.Funcs[ShortName(st.fr.fn)+"@step"]; c != nil {
+			cons = append(cons, c)
+		} else if c := vc.g.DB.Funcs[ShortName(st.fr.fn)]; c != nil && c.Mode == "step" {
+			cons = append(cons, c)
+		}
+	}
+	if len(cons) == 0 {
+		return
+	}
+	env := st.specEnv(vc.pkg, vc.frameVarsDry(st))
+	mark := func(ga *GhostAssign) {
+		if ga == nil {
+			return
+		}
+		if l := env.tryLoc(ga.LHS); l != nil && l.Heap != "" {
+			if _, known := st.g.heapSort[l.Heap]; !known {
+				if srt, ok := st.g.sortOfHeapName(l.Heap); ok {
+					st.cur(l.Heap, srt)
+				}
+			}
+			st.markWritten(l.Heap)
+			return
+		}
+		// unresolvable here: every ghost heap may be written
+		for _, h := range sortedKeys(st.g.heapSort) {
+			if strings.Contains(h, "$") && h != "$alive" && h != "$brk" {
+				st.markWritten(h)
+			}
+		}
+	}
+	for _, c := range cons {
+		for _, as := range c.Atomics {
+			for _, a := range as {
+				mark(a.GA)
+			}
+		}
+		for _, ac := range c.AtCall {
+			mark(ac.GA)
+		}
+	}
+}
+
+func (vc *FuncVC) frameVarsDry(st *State) map[string]SV {
+	if st.fr.caller == nil {
+		return vc.specVars(st)
+	}
+	vars := map[string]SV{}
+	for _, p := range st.fr.fn.Params {
+		if v, ok := st.fr.regs[p]; ok {
+			vars[p.Name()] = SV{V: v, T: p.Type()}
+		}
+	}
+	return vars
+}
+
+// privateCells: cells of the spawning function's own captured locals that the spawned closure cannot reach: the
+// cell's address never escapes (it is only loaded, stored to, or bound into closures) and it is not among the
+// spawned closure's bindings. Such a cell is not written by the spawned goroutine whatever its modifies clause says
+// about the memory kind the cell lives in.
+func (vc *FuncVC) privateCells(st *State, spawned ssa.Value, binds []Val) []roCell {
+	var out []roCell
+	bound := map[string]bool{}
+	for _, b := range binds {
+		bound[st.toScalar(b).T] = true
+	}
+	for _, blk := range st.fr.fn.Blocks {
+		for _, in := range blk.Instrs {
+			al, ok := in.(*ssa.Alloc)
+			if !ok || !al.Heap || al.Referrers() == nil {
+				continue
+			}
+			av, ok := st.fr.regs[al]
+			if os.Getenv("GOVC_DBG") != "" {
+				fmt.Fprintf(os.Stderr, "alloc %s heap=%v inregs=%v\n", al.Comment, al.Heap, ok)
+			}
+			if !ok || bound[st.toScalar(av).T] {
+				continue
+			}
+			private := true
+			for _, u := range *al.Referrers() {
+				switch x := u.(type) {
+				case *ssa.UnOp:
+					private = private && x.Op == token.MUL
+				case *ssa.Store:
+					private = private && x.Addr == ssa.Value(al) && x.Val != ssa.Value(al)
+				case *ssa.MakeClosure:
+					// the closures that capture the cell must not leak its address either
+					if cf, ok := x.Fn.(*ssa.Function); ok {
+						for bi, b := range x.Bindings {
+							if b == ssa.Value(al) && bi < len(cf.FreeVars) {
+								private = private && addrStaysLocal(cf.FreeVars[bi], 0)
+							}
+						}
+					} else {
+						private = false
+					}
+				case *ssa.DebugRef:
+				default:
+					private = false
+				}
+			}
+			if os.Getenv("GOVC_DBG") != "" {
+				fmt.Fprintf(os.Stderr, "privateCells %s private=%v refs=%d\n", al.Comment, private, len(*al.Referrers()))
+				for _, u := range *al.Referrers() {
+					fmt.Fprintf(os.Stderr, "   %T %s\n", u, u)
+				}
+			}
+			if private {
+				out = append(out, roCell{addr: av, elem: al.Type().Underlying().(*types.Pointer).Elem()})
+			}
+		}
+	}
+	return out
+}
+
+// addrStaysLocal: a captured cell pointer is only dereferenced (loaded from / stored to) or captured again by
+// nested closures that do the same; it is never stored as a value, passed to a call or compared.
+func addrStaysLocal(fv *ssa.FreeVar, depth int) bool {
+	if fv.Referrers() == nil {
+		return true
+	}
+	if depth > 4 {
+		return false
+	}
+	for _, u := range *fv.Referrers() {
+		switch x := u.(type) {
+		case *ssa.UnOp:
+			if x.Op != token.MUL {
+				return false
+			}
+		case *ssa.Store:
+			if x.Addr != ssa.Value(fv) || x.Val == ssa.Value(fv) {
+				return false
+			}
+		case *ssa.DebugRef:
+		case *ssa.MakeClosure:
+			cf, ok := x.Fn.(*ssa.Function)
+			if !ok {
+				return false
+			}
+			for bi, b := range x.Bindings {
+				if b == ssa.Value(fv) && (bi >= len(cf.FreeVars) || !addrStaysLocal(cf.FreeVars[bi], depth+1)) {
+					return false
+				}
+			}
+		default:
+			return false
+		}
+	}
+	return true
 }
